@@ -125,8 +125,13 @@ pub fn generate_all_circuit_binaries<P: AsRef<Path>>(
     let staging_path = create_staging_dir(output_path)?;
 
     let generated = (|| -> Result<()> {
+        #[cfg(quantus_network_qp_zk_circuits_verif)]
+        verif_hooks::stage(1)?;
         // Generate regular circuit binaries
         generate_circuit_binaries(&staging_path)?;
+
+        #[cfg(quantus_network_qp_zk_circuits_verif)]
+        verif_hooks::stage(2)?;
 
         // Generate aggregated circuit binaries
         generate_private_batch_circuit_binaries(
@@ -135,6 +140,8 @@ pub fn generate_all_circuit_binaries<P: AsRef<Path>>(
             include_prover,
         )?;
 
+        #[cfg(quantus_network_qp_zk_circuits_verif)]
+        verif_hooks::stage(3)?;
         // If num_private_batch_proofs is specified, generate public-batch aggregation circuit binaries
         if let Some(num_private_batch_proofs) = config.num_private_batch_proofs {
             generate_public_batch_circuit_binaries(
@@ -144,10 +151,14 @@ pub fn generate_all_circuit_binaries<P: AsRef<Path>>(
             )?;
         }
 
+        #[cfg(quantus_network_qp_zk_circuits_verif)]
+        verif_hooks::stage(4)?;
         // Save config file alongside binaries. Written last: its presence marks
         // the staged set as complete.
         config.save(&staging_path)
     })();
+    #[cfg(quantus_network_qp_zk_circuits_verif)]
+    let generated = generated.and_then(|()| verif_hooks::stage(5));
 
     if let Err(e) = generated {
         // A partial stage is worthless; never leave a stray staging directory
@@ -215,6 +226,10 @@ fn create_staging_dir(output_dir: &Path) -> Result<PathBuf> {
 /// After a successful swap-in, failing to delete the moved-aside previous
 /// copy is reported as a warning, not as command failure.
 fn commit_staging_dir(staging_dir: &Path, output_dir: &Path) -> Result<()> {
+    #[cfg(quantus_network_qp_zk_circuits_verif)]
+    if verif_hooks::armed() {
+        return commit_staging_dir_impl(staging_dir, output_dir, verif_hooks::rename);
+    }
     commit_staging_dir_impl(staging_dir, output_dir, |src, dst| fs::rename(src, dst))
 }
 
@@ -307,6 +322,72 @@ fn commit_staging_dir_impl(
         }
     }
     Ok(())
+}
+
+/// Verification hooks (compiled only with `--cfg quantus_network_qp_zk_circuits_verif`): a
+/// harness-installed callback is consulted at every generation stage boundary and around every
+/// directory rename of the publish sequence. It may observe the directory tree, request an
+/// injected failure (return `true`) or abort the process. Without an installed callback every
+/// point is a no-op and the real `fs::rename` is used.
+#[cfg(quantus_network_qp_zk_circuits_verif)]
+pub mod verif_hooks {
+    use std::path::Path;
+    use std::sync::atomic::{AtomicU32, Ordering};
+    use std::sync::RwLock;
+
+    #[derive(Debug, Clone, Copy, PartialEq, Eq)]
+    pub enum Point {
+        /// Entry of generation stage `k` (1 leaf, 2 private batch, 3 public batch, 4 config
+        /// save, 5 generation complete).
+        Stage(u32),
+        /// Before the `i`-th rename call of the publish sequence.
+        BeforeRename(u32),
+        /// After the `i`-th rename call, with its outcome.
+        AfterRename(u32, bool),
+    }
+
+    type Callback = Box<dyn Fn(Point) -> bool + Send + Sync>;
+    static CALLBACK: RwLock<Option<Callback>> = RwLock::new(None);
+    static RENAMES: AtomicU32 = AtomicU32::new(0);
+
+    pub fn install(cb: Callback) {
+        *CALLBACK.write().unwrap() = Some(cb);
+        RENAMES.store(0, Ordering::SeqCst);
+    }
+
+    pub(crate) fn armed() -> bool {
+        CALLBACK.read().unwrap().is_some()
+    }
+
+    fn at(p: Point) -> bool {
+        CALLBACK.read().unwrap().as_ref().map(|cb| cb(p)).unwrap_or(false)
+    }
+
+    pub(crate) fn stage(k: u32) -> anyhow::Result<()> {
+        if at(Point::Stage(k)) {
+            anyhow::bail!("verif: injected failure of generation stage {k}");
+        }
+        Ok(())
+    }
+
+    pub(crate) fn rename(src: &Path, dst: &Path) -> std::io::Result<()> {
+        let i = RENAMES.fetch_add(1, Ordering::SeqCst) + 1;
+        if at(Point::BeforeRename(i)) {
+            at(Point::AfterRename(i, false));
+            return Err(std::io::Error::new(
+                std::io::ErrorKind::Other,
+                "verif: injected rename failure",
+            ));
+        }
+        let r = std::fs::rename(src, dst);
+        at(Point::AfterRename(i, r.is_ok()));
+        r
+    }
+
+    /// The crate-private publish routine, callable from the conformance harness.
+    pub fn commit_staging_dir(staging_dir: &Path, output_dir: &Path) -> anyhow::Result<()> {
+        super::commit_staging_dir(staging_dir, output_dir)
+    }
 }
 
 #[cfg(test)]
